@@ -2,9 +2,10 @@
    Property theorems only; each is closed by `exact` and followed by Print Assumptions.
    airtovac_*_R/_Q, vactoair_*, flux2ab_*, filter_norm are GENERATED from /repo on every run
    (Generated/AstroConsts.v); airtovac_R, vactoair_R, filter_band, mask_interp compose them (C19/Model.v). *)
-From Coq Require Import Reals QArith Qreals List Bool ZArith Qabs.
+From Coq Require Import Reals QArith Qreals List Bool ZArith Qabs Lra.
 Import ListNotations.
-From PV Require Import C19.Spec Generated.AstroConsts C19.Model C19.WmeanProofs C19.AirVacProofs C19.FluxProofs C19.LinkProofs.
+From PV Require Import C19.Spec Generated.AstroConsts C19.Model C19.WmeanProofs C19.AirVacProofs C19.FluxProofs C19.LinkProofs
+  C19.InterpProofs C19.SwitchProofs.
 
 (* ---- air <-> vacuum (over R, wavelengths in Angstrom) ---- *)
 Open Scope R_scope.
@@ -24,6 +25,34 @@ Theorem C19_mutual_inverse :
   (forall v, 2000 <= vactoair_R v -> v <= 300000 -> Rabs (airtovac_R (vactoair_R v) - v) <= 1 / 1000000).
 Proof. exact mutual_inverse. Qed.
 Print Assumptions C19_mutual_inverse.
+
+(* ---- across the 2000 A switch (round 5) ---- *)
+
+(* air -> vacuum -> air for EVERY wavelength up to 30 um, the identity branch below 2000 A included *)
+Theorem C19_roundtrip_all_wavelengths : forall a, a <= 300000 -> Rabs (vactoair_R (airtovac_R a) - a) <= 1 / 1000000.
+Proof. exact roundtrip_all. Qed.
+Print Assumptions C19_roundtrip_all_wavelengths.
+
+(* the restriction "wherever vactoair(v) >= 2000 A" of the other direction cannot be dropped: just above the switch the
+   round trip is off by more than half an Angstrom *)
+Theorem C19_second_direction_gap : forall v, 2000 <= v <= 2000 + 1 / 2 ->
+  vactoair_R v < 2000 /\ airtovac_R (vactoair_R v) = vactoair_R v /\ 1 / 2 < v - airtovac_R (vactoair_R v).
+Proof. exact second_direction_gap. Qed.
+Print Assumptions C19_second_direction_gap.
+
+(* airtovac is strictly increasing on all wavelengths, across the switch too *)
+Theorem C19_airtovac_increasing : forall x y, x < y -> airtovac_R x < airtovac_R y.
+Proof. exact airtovac_increasing. Qed.
+Print Assumptions C19_airtovac_increasing.
+
+Theorem C19_vactoair_increasing_above : forall x y, 2000 <= x -> x < y -> vactoair_R x < vactoair_R y.
+Proof. exact vactoair_increasing_above. Qed.
+Print Assumptions C19_vactoair_increasing_above.
+
+(* full statement "vactoair is increasing on all wavelengths" is FALSE of the faithful model (and of the code): *)
+Theorem C19_vactoair_monotone_across_switch_refuted : vactoair_R 2000 < vactoair_R (2000 - 1 / 10).
+Proof. exact vactoair_not_monotone_at_switch. Qed.
+Print Assumptions C19_vactoair_monotone_across_switch_refuted.
 
 (* the executable Q model run against the implementation is the R model of the theorems above *)
 Theorem C19_Q_model_is_R_model : forall a : Q,
@@ -106,6 +135,82 @@ Theorem C19_filter_mask_indep : forall (interp : list (Z * Q) -> Z -> Q) ws fl f
 Proof. exact filter_mask_indep. Qed.
 Print Assumptions C19_filter_mask_indep.
 
+(* ---- masked pixels: djs_maskinterp1 with the good / bad tests and the dispatch REGENERATED from image.py (round 5) ---- *)
+
+(* the two tests of the source partition the mask values, and "bad" is the documented "mask is non-zero" -- for every
+   rational mask value: -1, a sign bit, 2^63, 1/2.  A source that fills only `mask > 0` pixels breaks this obligation. *)
+Theorem C19_mask_tests_are_spec : forall m,
+  maskinterp_bad m = negb (maskinterp_good m) /\ maskinterp_bad m = bad_S m /\ (maskinterp_bad m = true <-> ~ m == 0).
+Proof. exact (fun m => conj (mask_partition m) (conj (mask_bad_is_spec m) (mask_bad_iff m))). Qed.
+Print Assumptions C19_mask_tests_are_spec.
+
+(* two rows with the same mask that agree on the good pixels are interpolated to the same row, when there is a good pixel *)
+Theorem C19_maskinterp_indep : forall l l', Forall2 agree_m l l' -> has_good l -> mi_row l = mi_row l'.
+Proof. exact mi_row_indep. Qed.
+Print Assumptions C19_maskinterp_indep.
+
+(* full statement (no "has a good pixel") is FALSE of the faithful model: a row without good pixels is handed back as it is *)
+Theorem C19_maskinterp_indep_all_bad_refuted : exists l l', Forall2 agree_m l l' /\ all_bad l /\ mi_row l <> mi_row l'.
+Proof. exact mi_row_all_bad_refuted. Qed.
+Print Assumptions C19_maskinterp_indep_all_bad_refuted.
+
+Theorem C19_maskinterp_all_bad_is_input : forall l, all_bad l -> mi_row l = map fst l.
+Proof. exact mi_row_all_bad_is_input. Qed.
+Print Assumptions C19_maskinterp_all_bad_is_input.
+
+(* every pixel of the interpolated row lies within the range of the good values *)
+Theorem C19_maskinterp_bounds : forall lo hi l, has_good l -> good_within lo hi l -> forall x, In x (mi_row l) -> lo <= x <= hi.
+Proof. exact mi_row_bounds. Qed.
+Print Assumptions C19_maskinterp_bounds.
+
+(* one (trace, band) of filter_thru(flux, mask=...): independent of the bad pixels' values, within the good pixels' range,
+   c for a spectrum that is c on the good pixels *)
+Theorem C19_filter_trace_mask_indep : forall ws l l', Forall2 agree_m l l' -> has_good l -> filter_trace ws l = filter_trace ws l'.
+Proof. exact filter_trace_mask_indep. Qed.
+Print Assumptions C19_filter_trace_mask_indep.
+
+Theorem C19_filter_trace_bounds : forall lo hi ws l, (forall w, In w ws -> 0 <= w) -> has_good l -> good_within lo hi l ->
+  0 < sumw (combine ws (mi_row l)) -> lo <= filter_trace ws l <= hi.
+Proof. exact filter_trace_bounds. Qed.
+Print Assumptions C19_filter_trace_bounds.
+
+Theorem C19_filter_trace_const : forall c ws l, (forall w, In w ws -> 0 <= w) -> has_good l -> good_within c c l ->
+  0 < sumw (combine ws (mi_row l)) -> filter_trace ws l == c.
+Proof. exact filter_trace_const. Qed.
+Print Assumptions C19_filter_trace_const.
+
+(* np.interp never leaves the range of the sample values, whatever the abscissae *)
+Theorem C19_np_interp_bounds : forall lo hi x l, l <> [] -> vals_within lo hi l -> lo <= np_interp x l <= hi.
+Proof. exact np_interp_bounds. Qed.
+Print Assumptions C19_np_interp_bounds.
+
+(* a spectrum stored red to blue gives the same band value as the same pixels stored blue to red *)
+Theorem C19_filter_band_reversal : forall l, filter_band (rev l) == filter_band l.
+Proof. exact filter_band_rev. Qed.
+Print Assumptions C19_filter_band_reversal.
+
+(* the response curves REGENERATED from data/filters: within [0, 1] at every wavelength, so that the band value computed
+   from (fitted d log lambda, wavelength, flux) needs no hypothesis on the response any more *)
+Theorem C19_response_range : forall b lam, 0 <= filter_response b lam <= 1.
+Proof. exact response_range. Qed.
+Print Assumptions C19_response_range.
+
+Theorem C19_filter_thru_lam_bounds : forall b lo hi l, flux_within3 lo hi l -> 0 < sumw (band_pairs (resp_tr b l)) ->
+  lo <= filter_thru_lam b l <= hi.
+Proof. exact filter_thru_lam_bounds. Qed.
+Print Assumptions C19_filter_thru_lam_bounds.
+
+Theorem C19_filter_thru_lam_no_overlap : forall b l, sumw (band_pairs (resp_tr b l)) <= 0 -> filter_thru_lam b l == 0.
+Proof. exact filter_thru_lam_no_overlap. Qed.
+Print Assumptions C19_filter_thru_lam_no_overlap.
+
+(* the run-time row checker S is sound *)
+Theorem C19_fill_ok_sound : forall l r tol g0 gs, fill_ok l r tol = true -> good_vals l = g0 :: gs ->
+  Forall2 (fun (p : Q * Q) (x : Q) =>
+             if bad_S (snd p) then lmin gs g0 - tol <= x <= lmax gs g0 + tol else x == fst p) l r.
+Proof. exact fill_ok_sound. Qed.
+Print Assumptions C19_fill_ok_sound.
+
 (* the run-time checker S used on the implementation's outputs is sound *)
 Theorem C19_wmean_ok_sound : forall l r tol, wmean_ok l r tol = true -> l <> [] ->
   nonneg_weights l /\ (0 < sumw l -> Qabs (r - wmean l) <= tol) /\ (sumw l <= 0 -> r == 0).
@@ -117,3 +222,23 @@ Example C19_witness_air : Qred (vactoair_Q (2000 # 1)) = (2757481878800000000 # 
 Proof. vm_compute. reflexivity. Qed.
 Example C19_witness_band : filter_thru_band [((-1) # 2, 1 # 1, 3 # 1); (1 # 2, 1 # 1, 5 # 1)] == 4.
 Proof. vm_compute. reflexivity. Qed.
+(* round 5 *)
+Example C19_witness_mask_negative : map Qred (mi_row [(1, 0); (900, (-1) # 1); (900, (-2147483648) # 1); (4, 0); (900, 1 # 2)]) = [1; 2; 3; 4; 4].
+Proof. vm_compute. reflexivity. Qed.
+Example C19_witness_mask_indep : has_good [(1, 0); (900, (-1) # 1); (4, 0)] /\
+  Forall2 agree_m [(1, 0); (900, (-1) # 1); (4, 0)] [(1, 0); (7, (-1) # 1); (4, 0)].
+Proof.
+  split. exists (1, 0). split; [left; reflexivity | reflexivity].
+  repeat constructor; cbn; discriminate.
+Qed.
+Example C19_witness_single_good : map Qred (mi_row [(9, 1); (9, (-1) # 1); (5, 0); (7, 1 # 2)]) = [5; 5; 5; 5].
+Proof. vm_compute. reflexivity. Qed.
+Example C19_witness_response : Qred (filter_response 0 (3017 # 1)) = (73 # 250000) /\ Qred (filter_response 2 (6230 # 1)) = (4819 # 10000).
+Proof. split; vm_compute; reflexivity. Qed.
+Example C19_witness_lam_overlap : 0 < sumw (band_pairs (resp_tr 1 [((-1) # 1000, 4700 # 1, 3 # 1); (1 # 1000, 4800 # 1, 5 # 1)])).
+Proof. vm_compute. reflexivity. Qed.
+Example C19_witness_fill_ok : fill_ok [(1, 0); (900, (-1) # 1); (4, 0)] [1; 5 # 2; 4] 0 = true /\
+                              fill_ok [(1, 0); (900, (-1) # 1); (4, 0)] [1; 900; 4] 0 = false.
+Proof. split; vm_compute; reflexivity. Qed.
+Example C19_witness_gap_domain : (2000 <= 2000 + 1 / 4 <= 2000 + 1 / 2)%R.
+Proof. split; lra. Qed.
